@@ -68,6 +68,9 @@ type c14Mon struct {
 	errPaths  int
 	responses int
 	verifiers int
+	// fresh: markers learnt during the current step (a verifier may first be seen when it is redeemed at the provider,
+	// after the answers that could have carried it): earlier answers are scanned again for them
+	fresh []string
 }
 
 func (m *c14Mon) add(kind, val string) {
@@ -76,6 +79,7 @@ func (m *c14Mon) add(kind, val string) {
 	}
 	if _, ok := m.markers[val]; !ok {
 		m.markers[val] = marker{kind: kind, enc: encodings(val)}
+		m.fresh = append(m.fresh, val)
 	}
 }
 
@@ -167,8 +171,26 @@ func (m *c14Mon) scan(h *H, s *step, resp *envoy.CheckResponse) (string, string)
 
 func (m *c14Mon) after(h *H, s *step) {
 	c, w := h.c, h.w
+	m.fresh = m.fresh[:0]
 	m.learn(h, s)
 	m.responses++
+	if len(m.fresh) > 0 && len(h.steps) > 0 {
+		only := map[string]marker{}
+		for _, v := range m.fresh {
+			only[v] = m.markers[v]
+		}
+		all := m.markers
+		m.markers = only
+		for _, prev := range h.steps {
+			if prev == s || prev.R == nil || prev.R.Raw == nil {
+				continue
+			}
+			if kind, msg := m.scan(h, prev, prev.R.Raw); kind != "" {
+				c.Violation("leak:"+kind+":earlier-answer", "step #%d (%s), found when the value became known at step #%d: %s", prev.N, prev.Kind, s.N, msg)
+			}
+		}
+		m.markers = all
+	}
 	if s.R.Raw == nil {
 		return
 	}
